@@ -197,6 +197,13 @@ class C05(Prop):
                     d.append("D.det:" + mk_err(rng.choice(KINDS), rng, tag[0] % 97))
             seqs = [d] + [["S%d" % (k + 1)] * (2 * len(errs[k])) for k in range(n)]
             L.append(self.line("pce", errs, random_merge(seqs, rng)))
+        # the same scenarios with the driver polled from a different task each time (every poll has
+        # its own waker; only a wake through the latest one reaches the parked task): engine `cellmv`
+        # compares the cell, the reports, the close calls and `lost`
+        mv = [l for l in L if l.startswith("cell ") and l.count("D.poll") >= 2]
+        rng.shuffle(mv)
+        for l in mv[:(20000 if big else 4000)]:
+            L.append("cellmv " + l[len("cell "):])
         return L
 
     # ---------------------------------------------------------------- statistics
